@@ -269,7 +269,13 @@ class Predicates(PredicatesBase, qset[Predicate]):
         # mismatch.
         get = self._lookup.get
         conflicts: dict[Predicate, Predicate]|None = None
+        arrived: dict[Any, Predicate] = {}
         for pred in arriving:
+            # The arriving predicates must not conflict with each other either.
+            for ref in pred.refs:
+                other = arrived.setdefault(ref, pred)
+                if other != pred:
+                    raise Emsg.ValueConflictFor(pred, pred.spec, other.spec)
             for prior in filter(None, map(get, pred.refs)):
                 if prior != pred:
                     if conflicts is None:
